@@ -117,7 +117,11 @@ TxViol(e) ==
                      w.ok /\ p.ok /\ w.plen = 16 + Len(e.plain) /\ p.n = ConfPadLen(Len(p.msg)))
           \cup Check("C03", "inner-message-is-called-command", CmdOk(mm))
           \cup Check("C06", "every-transmission-encodes-the-callers-command", CmdOk(mm))
+          \cup Check("C01", "command-passes-bmc-integrity-and-decryption", w.ok /\ w.sid = BmcSid /\ Has(e, "authOK") /\ e.authOK /\ p.ok /\ mm.ok)
           \cup Check("C03", "iv-fresh", Len(e.raw) >= 32 /\ Sub(e.raw, 16, 32) \notin ivs)
+          \* C17: nothing of the replies received so far may show in what is sent next (e.g. an AuthCode computed over leftovers)
+          \cup (IF txN > 0 THEN Check("C17", "packet-sent-after-earlier-replies-is-what-a-fresh-session-would-send",
+                                      CmdOk(mm) /\ w.ok /\ w.sid = BmcSid /\ Has(e, "authOK") /\ e.authOK /\ p.ok) ELSE {})
           \cup Check("C10", "retransmission-is-same-command",
                      att = 0 \/ (CmdOk(mm) /\ w.ok /\ w.sid = BmcSid /\ Has(e, "authOK") /\ e.authOK /\ p.ok))
           \cup Check("C10", "no-tx-after-transport-failure", ~dead)
@@ -152,7 +156,14 @@ RetViol(e) ==
                       /\ PredRes.err = e.err
                       /\ (PredRes.code # "none" => (Has(e, "code") /\ e.code = CcByte(PredRes.code)))
                       /\ (~e.err => (hasA /\ PredRes.from.call = a.call /\ PredRes.from.n = a.n)))
-           \cup Check("C10", "transmissions-predicted-by-reference-model", att = PredTxOfCall))
+           \cup Check("C10", "transmissions-predicted-by-reference-model", att = PredTxOfCall)
+           \* C17: the same judgement for every call after the first of a history on one connection / session
+           \cup (IF callN > 1
+                 THEN Check("C17", "result-of-a-later-call-independent-of-what-preceded-it",
+                            /\ PredRes.err = e.err /\ att = PredTxOfCall
+                            /\ (PredRes.code # "none" => (Has(e, "code") /\ e.code = CcByte(PredRes.code)))
+                            /\ (~e.err => (hasA /\ PredRes.from.call = a.call /\ PredRes.from.n = a.n)))
+                 ELSE {}))
 
 NewViol == LET e == Ev IN
   IF e.ev = "tx" THEN TxViol(e)
